@@ -33,6 +33,9 @@ func genHistory(t *rapid.T, withRemoval bool) *World {
 	ctl := xdb.NewCtl()
 	worldRecCtl = ctl
 	w := newWorldRec(t, nW, 20, func(d mwdb.DB) mwdb.DB { return xdb.Wrap(d, ctl) })
+	if rapid.IntRange(0, 1).Draw(t, "withKeystoreImport") == 0 {
+		w.importFromKeystore(t)
+	}
 	removed := false
 	n := rapid.IntRange(6, 22).Draw(t, "historyLen")
 	for i := 0; i < n; i++ {
@@ -80,6 +83,63 @@ func genHistory(t *rapid.T, withRemoval bool) *World {
 	w.finishTasks(t)
 	w.auditLedger(t)
 	return w
+}
+
+// importFromKeystore adds a wallet through ImportWallet(keystore JSON): the keystore is produced by a
+// scratch instance (mnemonic import + 1..3 further standard addresses + export).
+func (w *World) importFromKeystore(t *rapid.T) {
+	ent := rapid.SliceOfN(rapid.Byte(), 16, 16).Draw(t, "ksEntropy")
+	keys, _ := sim.EntropyFor(ent, "pass7Xks")
+	if keys == nil {
+		return
+	}
+	for _, o := range w.wallets {
+		if o.id == keys.ID {
+			return
+		}
+	}
+	scratch, err := sim.NewEnv(w.node, 20, nil)
+	if err != nil {
+		t.Fatalf("HARNESS: %v", err)
+	}
+	defer scratch.Close()
+	if err := scratch.StartStepped(); err != nil {
+		t.Fatalf("HARNESS: %v", err)
+	}
+	if _, err := scratch.W.ImportWalletWithMnemonic(&keystore.WalletParams{Mnemonic: keys.Mnemonic, PrivatePassphrase: []byte(keys.Pass), Remarks: "ks", AddressGapLimit: 20}); err != nil {
+		t.Fatalf("HARNESS: scratch import: %v", err)
+	}
+	for n := 0; n < 100; n++ {
+		if ok, _ := scratch.W.CheckReady(keys.ID); ok {
+			break
+		}
+		if _, err := scratch.ServeWorker(20 * time.Second); err != nil {
+			t.Fatalf("HARNESS: %v", err)
+		}
+	}
+	if _, err := scratch.W.UseWallet(keys.ID); err != nil {
+		t.Fatalf("HARNESS: %v", err)
+	}
+	for i := 0; i < rapid.IntRange(1, 3).Draw(t, "ksAddrs"); i++ {
+		if _, err := scratch.W.NewAddress(massutil.AddressClassWitnessV0); err != nil {
+			t.Fatalf("HARNESS: %v", err)
+		}
+	}
+	js, err := scratch.W.ExportWallet(keys.ID, keys.Pass)
+	if err != nil {
+		t.Fatalf("HARNESS: export: %v", err)
+	}
+	w.record(hstep{Kind: "importJSON", Keys: keys, JSON: js, Pass: keys.Pass})
+	ws, err := w.env.W.ImportWallet(js, keys.Pass)
+	if err != nil {
+		t.Fatalf("ImportWallet(keystore): %v", err)
+	}
+	m := &mwallet{keys: keys, id: ws.WalletID, owns: map[[32]byte]bool{}}
+	w.wallets = append(w.wallets, m)
+	w.finishTasks(t)
+	w.syncIssued(t, m)
+	w.flag("keystore-import")
+	w.logf("import wallet from keystore id=%s addrs=%d", m.id, len(m.issued))
 }
 
 func newWorldRec(t *rapid.T, nWallets int, gap uint32, wrap func(mwdb.DB) mwdb.DB) *World {
@@ -271,6 +331,23 @@ func (r *replayer) stepInner(t *rapid.T, s hstep) {
 				t.Fatalf("importing the wallet keeps failing after the storage fault is gone: %v\n  %s", err, strings.Join(r.log, "\n  "))
 			}
 		}
+	case "importJSON":
+		for try := 0; ; try++ {
+			if listed, _, _ := r.walletListed(t, s.Keys.ID); listed {
+				break
+			}
+			_, err := r.env.W.ImportWallet(s.JSON, s.Pass)
+			if err == nil || err == keystore.ErrDuplicateSeed {
+				break
+			}
+			if r.ctl.Frozen() {
+				return
+			}
+			r.log = append(r.log, fmt.Sprintf("import keystore -> %v", err))
+			if try >= 4 {
+				t.Fatalf("importing the keystore keeps failing after the storage fault is gone: %v\n  %s", err, strings.Join(r.log, "\n  "))
+			}
+		}
 	case "newAddress":
 		// the user asks for one address and repeats the request while it reports failure
 		for try := 0; ; try++ {
@@ -402,6 +479,8 @@ func propC18(t *rapid.T) {
 	// checks that the recorded script reproduces the twin (otherwise the harness, not the wallet, is off)
 	var total, base int64
 	var trace []string
+	var userOps [][2]int64 // call ranges (1-based, inclusive) of the user operations of the script
+	var bigOps []int       // indexes of the imports / removals among them (many writes in one transaction)
 	{
 		ctl := xdb.NewCtl()
 		ctl.KeepTrace = true
@@ -411,7 +490,15 @@ func propC18(t *rapid.T) {
 			defer r.close()
 			base = ctl.Calls()
 			for _, s := range script {
+				from := ctl.Calls()
 				r.step(t, s)
+				switch s.Kind {
+				case "import", "importJSON", "newAddress", "remove":
+					userOps = append(userOps, [2]int64{from - base + 1, ctl.Calls() - base})
+					if s.Kind != "newAddress" {
+						bigOps = append(bigOps, len(userOps)-1)
+					}
+				}
 			}
 			r.converge(t)
 			total = ctl.Calls() - base
@@ -432,7 +519,7 @@ func propC18(t *rapid.T) {
 			ks = append(ks, k)
 		}
 	} else {
-		n := 14
+		n := 20
 		if ev.Thorough() {
 			n = 120
 		}
@@ -451,6 +538,26 @@ func propC18(t *rapid.T) {
 		for _, kind := range kinds {
 			l := byKind[kind]
 			ks = append(ks, l[rapid.IntRange(0, len(l)-1).Draw(t, "k-"+kind)])
+		}
+		// user operations are short compared with block processing: give one of them a few faults
+		// of its own (writes preferred - an unreported failed write is what leaves a trace)
+		if len(userOps) > 0 {
+			op := userOps[rapid.IntRange(0, len(userOps)-1).Draw(t, "faultedUserOp")]
+			if len(bigOps) > 0 && rapid.Bool().Draw(t, "preferImportOrRemoval") {
+				op = userOps[bigOps[rapid.IntRange(0, len(bigOps)-1).Draw(t, "faultedBigOp")]]
+			}
+			var puts []int64
+			for k := op[0]; k <= op[1]; k++ {
+				if kd := trace[base+k-1]; kd == "put" || kd == "delete" || kd == "commit" {
+					puts = append(puts, k)
+				}
+			}
+			for i := 0; i < 6 && len(puts) > 0; i++ {
+				ks = append(ks, puts[rapid.IntRange(0, len(puts)-1).Draw(t, "k-userop-write")])
+			}
+			if op[1] >= op[0] {
+				ks = append(ks, int64(rapid.IntRange(int(op[0]), int(op[1])).Draw(t, "k-userop")))
+			}
 		}
 		for len(ks) < n {
 			ks = append(ks, int64(rapid.IntRange(1, int(total)).Draw(t, "k")))
